@@ -581,6 +581,7 @@ func (o SendOpT[T]) Do(v T) {
 
 // SelCase is one case of a select.
 type SelCase interface {
+	ephemeralKey() uintptr
 	op() *chanOp
 	native() reflect.SelectCase
 	setNative(v reflect.Value, ok bool)
@@ -592,6 +593,7 @@ type sendCase[T any] struct {
 }
 
 func (c *sendCase[T]) op() *chanOp { return c.o.mk(c.v, "") }
+func (c *sendCase[T]) ephemeralKey() uintptr { return 0 }
 func (c *sendCase[T]) native() reflect.SelectCase {
 	return reflect.SelectCase{Dir: reflect.SelectSend, Chan: reflect.ValueOf(c.o.ch), Send: reflect.ValueOf(&c.v).Elem()}
 }
@@ -602,12 +604,24 @@ func (o SendOpT[T]) Case(v T) SelCase { return &sendCase[T]{o, v} }
 
 // RCase is the receive case `case v, ok := <-ch:`.
 type RCase[T any] struct {
-	ch <-chan T
-	V  T
-	OK bool
+	ch        <-chan T
+	V         T
+	OK        bool
+	ephemeral bool
 }
 
 func RecvCase[T any](ch <-chan T) *RCase[T] { return &RCase[T]{ch: ch} }
+
+// RecvCaseEphemeral is RecvCase for a channel that nothing else references (time.After in a case
+// expression): when the select takes another case the timer behind it is disarmed.
+func RecvCaseEphemeral[T any](ch <-chan T) *RCase[T] { return &RCase[T]{ch: ch, ephemeral: true} }
+
+func (c *RCase[T]) ephemeralKey() uintptr {
+	if c.ephemeral {
+		return chanKey(c.ch)
+	}
+	return 0
+}
 
 func (c *RCase[T]) op() *chanOp {
 	ch := c.ch
@@ -680,6 +694,16 @@ func Select(pos string, hasDefault bool, cases ...SelCase) int {
 		p.ops = append(p.ops, c.op())
 	}
 	s.block(p)
+	for i, c := range cases {
+		if k := c.ephemeralKey(); k != 0 && i != p.fired {
+			for _, t := range s.timers {
+				if t.c != nil && chanKey(t.c) == k {
+					t.active = false
+				}
+			}
+			s.gcTimers()
+		}
+	}
 	return p.fired
 }
 
@@ -742,9 +766,9 @@ func Choose(n int, note string) int {
 	return s.choose('c', n, note)
 }
 
-// Explore opens/closes the exploration zone: alternatives of choices recorded while closed are
+// Zone opens/closes the exploration zone: alternatives of choices recorded while closed are
 // never explored.
-func Explore(on bool) {
+func Zone(on bool) {
 	if s := cur(); s != nil {
 		s.open = on
 	}
